@@ -15,7 +15,8 @@ m("C01", "length = len+4", "header.py", "size = len(self.payload) + 8", "size = 
 m("C01", "client/session swapped in build", "header.py", "            self.client_id,\n            self.session_id,\n            self.protocol_version,", "            self.session_id,\n            self.client_id,\n            self.protocol_version,")
 m("C01", "only first message of a datagram delivered", "sd.py", "            while data:\n                # 4.2.1, TR_SOMEIP_00140", "            if data:\n                # 4.2.1, TR_SOMEIP_00140")
 m("C01", "payload slice off by one", "header.py", "payload_b, buf_rest = buf_rest[: size - 8], buf_rest[size - 8 :]", "payload_b, buf_rest = buf_rest[: size - 8], buf_rest[size - 7 :]")
-m("C05", "D10 reverted: listeners notified while iterating the live sets", "sd.py", "                for listener in list(listeners):\n                    if listener in listeners:\n                        listener.service_offered(service, source)", "                for listener in listeners:\n                    if listener in listeners:\n                        listener.service_offered(service, source)")
+m("C05", "D10 reverted: stopped reports made while iterating the live sets", "sd.py", "                for listener in list(listeners):\n                    if listener in listeners:\n                        listener.service_stopped(service, source)", "                for listener in listeners:\n                    if listener in listeners:\n                        listener.service_stopped(service, source)")
+m("C05", "D13 reverted: one round of offered reports, taken from snapshots", "sd.py", '        done: typing.Set[typing.Tuple[typing.Any, int]] = set()\n        while True:\n            todo: typing.List[typing.Tuple[typing.Any, typing.Any, typing.Any]] = []\n            for service_filter, listeners in list(self.watched_services.items()):\n                if service_filter.matches_service(service):\n                    todo.extend((service_filter, listeners, x) for x in list(listeners))\n            todo.extend(\n                (None, self.watcher_all_services, x)\n                for x in list(self.watcher_all_services)\n            )\n            todo = [t for t in todo if (t[0], id(t[2])) not in done]\n            if not todo:\n                break\n            for key, listeners, listener in todo:\n                done.add((key, id(listener)))\n                if listener in listeners:\n                    listener.service_offered(service, source)\n', '        for service_filter, listeners in list(self.watched_services.items()):\n            if service_filter.matches_service(service):\n                for listener in list(listeners):\n                    if listener in listeners:\n                        listener.service_offered(service, source)\n        for listener in list(self.watcher_all_services):\n            if listener in self.watcher_all_services:\n                listener.service_offered(service, source)\n')
 m("C06", "D12 reverted: reboot applied while walking the live list of instances", "sd.py", "        for instance in list(self.announcing_services):\n            instance.reboot_detected(addr)", "        for instance in self.announcing_services:\n            instance.reboot_detected(addr)")
 m("C10", "D11 reverted: pending unicast offers not flushed ahead of the StopOffer", "sd.py", "            self.announcer.flush_offers(self.service)\n", "            pass\n")
 # ---- C16
@@ -70,7 +71,7 @@ m("C09", "expiry 1 ms early", "sd.py", "                ttl, self._expired, addr
 m("C09", "timer not cancelled on stop", "sd.py", "        if _timeout_handle:\n", "        if _timeout_handle and False:\n")
 m("C09", "D2 reverted: expiry callback deferred", "sd.py", "        # report immediately, like stop(): if this were deferred, a refresh handled in\n        # between would be reported as new before its predecessor is reported expired\n        callback(entry, address)", "        asyncio.get_event_loop().call_soon(callback, entry, address)")
 # ---- C05
-m("C05", "watch-all listeners not told about offers", "sd.py", "        for listener in list(self.watcher_all_services):\n            if listener in self.watcher_all_services:\n                listener.service_offered(service, source)", "        for listener in ():\n            if listener in self.watcher_all_services:\n                listener.service_offered(service, source)")
+m("C05", "watch-all listeners not told about offers", "sd.py", "            todo.extend(\n                (None, self.watcher_all_services, x)\n                for x in list(self.watcher_all_services)\n            )\n", "")
 m("C05", "D1 reverted: removed entries reported via call_soon", "sd.py", "            callback(entry, address)\n\n    def stop_all(self)", "            asyncio.get_event_loop().call_soon(callback, entry, address)\n\n    def stop_all(self)")
 m("C05", "discovery ignores detected reboots", "sd.py", "        self.found_services.stop_all_for_address(addr)", "        pass")
 m("C05", "D8 reverted: watch replay deferred", "sd.py", "                if service.matches_service(s):\n                    listener.service_offered(s, addr)", "                if service.matches_service(s):\n                    asyncio.get_event_loop().call_soon(listener.service_offered, s, addr)")
